@@ -293,23 +293,25 @@ func TestVerif_C17_progr(t *testing.T) {
 // on how the transfer was split into calls.
 func TestVerif_C17_e2eprogress(t *testing.T) {
 	s := verifh.New(t, "C17", "e2eprogress",
-		"downloads (Content-Length or chunked responses of 0 B … 300 KiB, SetOutput / SetOutputFile) and multipart uploads (1..3 files by path, bytes, reader, FileUpload with FileSize; sizes around 512 B and 32 KiB up to 200 KiB) over HTTP/1.1 and HTTP/2 with callback intervals 0, 1 ns, 1 ms, 1 h; oracle: per transfer the counts are strictly increasing, never above the true size, and end at it (downloads; uploads of known size); for interval 1 h the sequence equals the model's; non-trivial = a transfer with at least one callback")
+		"downloads (Content-Length or chunked responses of 0 B … 300 KiB, SetOutput / SetOutputFile) and multipart uploads (1..3 files by path, bytes, reader, FileUpload with FileSize; sizes around 512 B and 32 KiB up to 200 KiB) over HTTP/1.1, HTTP/2 and (uploads) HTTP/3 with callback intervals 0, 1 ns, 1 ms, 1 h; oracle: per transfer the counts are strictly increasing, never above the true size, and end at it (downloads; uploads of known size); for interval 1 h the sequence equals the model's; non-trivial = a transfer with at least one callback")
 	r := s.Rand()
 	dir := t.TempDir()
-	origins := map[string]*c17Origin{"h1": c17NewOrigin("h1"), "h2": c17NewOrigin("h2")}
-	defer origins["h1"].srv.Close()
-	defer origins["h2"].srv.Close()
-	n := verifh.N(60, 1500)
+	origins := map[string]*c17Origin{"h1": c17NewOrigin("h1"), "h2": c17NewOrigin("h2"), "h3": c17NewOrigin("h3")}
+	defer origins["h1"].stop()
+	defer origins["h2"].stop()
+	defer origins["h3"].stop()
+	n := verifh.N(150, 3000)
 	intervals := []time.Duration{0, time.Nanosecond, time.Millisecond, time.Hour}
 	sizes := []int{0, 1, 511, 512, 513, 4000, 32*1024 - 1, 32 * 1024, 32*1024 + 1, 100000, 200000, 300000}
 	for i := 0; i < n; i++ {
-		proto := verifh.Pick(r, []string{"h1", "h1", "h2"})
+		proto := verifh.Pick(r, []string{"h1", "h1", "h1", "h2", "h2", "h3"})
 		o := origins[proto]
 		c := c17Client(proto)
 		interval := verifh.Pick(r, intervals)
 		s.Count(proto)
 		s.Count("interval-" + interval.String())
-		if r.Intn(2) == 0 { // ---- download
+		// HTTP/3 is used for uploads only: response bodies over HTTP/3 are the subject of C14/C02
+		if proto != "h3" && r.Intn(2) == 0 { // ---- download
 			size := verifh.Pick(r, sizes)
 			data := []byte(verifh.RandBytes(r, size, ""))
 			id := strconv.Itoa(i)
@@ -317,7 +319,7 @@ func TestVerif_C17_e2eprogress(t *testing.T) {
 			o.dl[id] = data
 			o.mu.Unlock()
 			chunked := r.Intn(2) == 0
-			u := o.srv.URL + "/dl?id=" + id
+			u := o.base + "/dl?id=" + id
 			if chunked {
 				u += "&chunked=1"
 			}
@@ -417,7 +419,7 @@ func TestVerif_C17_e2eprogress(t *testing.T) {
 			rec.emitted = append(rec.emitted, info.UploadedSize)
 		}, interval)
 		o.take()
-		resp, err := req.Post(o.srv.URL + "/up")
+		resp, err := req.Post(o.base + "/up")
 		seen := o.take()
 		mu.Lock()
 		ok := err == nil && resp.StatusCode == 200 && len(seen) == 1
